@@ -341,6 +341,10 @@ func runC21(r *Report) {
 		r.Anchor("R21c", "stores into wslots in _refresh", n >= 3)
 	}
 
+	// the group's primary really is a primary, and the sentinel re-verifies roles
+	shardPrimaryRules(r, "R21c")
+	roleVerifiedOnSuccess(r, "R21a")
+
 	// R21d clamps
 	nSel := 0
 	for _, fn := range p.ModuleFuncs() {
